@@ -1,6 +1,7 @@
 """C21 - WebAssembly modules round-trip through binary and text forms."""
 
 import json
+import os
 import time
 
 from hypothesis import strategies as st
@@ -269,7 +270,7 @@ def _worker(arg):
 def run(ctx):
     import ppci.wasm  # noqa: F401
 
-    open_ids = core.open_finding_ids(PID)
+    open_ids = core.open_finding_ids(PID) - set(os.environ.get("VERIF_ASSUME_FIXED", "").split(","))  # validation of fixes/*.diff
     sizes = dict(max_funcs=ctx.scale(4, 5), fuel=ctx.scale(40, 60), depth=ctx.scale(5, 6), budget_s=ctx.scale(60, 1500))
     n = ctx.scale(256, 32000)
     ctx.pmap(_worker, [(subseed(ctx.seed, PID, w), n // 16, open_ids, sizes) for w in range(16)])
